@@ -1,1 +1,2 @@
 //! Boring reference models shared by several properties.
+pub mod geometry;
